@@ -396,4 +396,65 @@ theorem validateV2FileContracts_ok {ms : Mid} {t : Txn2} (h : validateV2FileCont
       · cases hh; exact ⟨rfl, p3, p1, p2', p4, trivial⟩) _ _ _ hress
   exact ⟨h1, h2a, h2b, h3.1, h3.2.1⟩
 
+-- ------------------------------------------------------------------ validateRevision2
+
+def curFc2 (ms : Mid) (e : Fc2Elem) : Fc2 :=
+  match ms.lookup e.id with
+  | some i => match (ms.v2fces.getD i default).revision with
+    | some r => r
+    | none => e.fc
+  | none => e.fc
+
+def validateRevision2Core (ms : Mid) (cur rev : Fc2) (sigCurOk : Bool) : VM Unit := do
+  let curSum ← addC cur.renter.value cur.host.value
+  let revSum ← addC rev.renter.value rev.host.value
+  if rev.capacity < cur.capacity then reject "decreases capacity"
+  else if rev.filesize > rev.capacity then reject "has filesize exceeding capacity"
+  else if cur.proofHeight < ms.base.child then reject "revises contract after its proof window has opened"
+  else if rev.revNum ≤ cur.revNum then reject "does not increase revision number"
+  else if revSum ≠ curSum then reject "modifies output sum"
+  else if rev.missedHost > cur.missedHost then reject "has missed host value exceeding old value"
+  else if ms.base.child ≥ ms.base.P.ephemeralFix ∧ rev.missedHost > rev.host.value then reject "has missed host value exceeding valid host value"
+  else if rev.totalCollateral ≠ cur.totalCollateral then reject "modifies total collateral"
+  else if rev.proofHeight < ms.base.child then reject "has proof height that has already passed"
+  else if rev.expHeight ≤ rev.proofHeight then reject "leaves no time between proof height and expiration height"
+  else if sigCurOk then pure () else reject "has invalid signature"
+
+theorem validateRevision2_eq (ms : Mid) (e : Fc2Elem) (rev : Fc2) (sg : Bool) :
+    validateRevision2 ms e rev sg = validateRevision2Core ms (curFc2 ms e) rev sg := rfl
+
+theorem validateRevision2Core_ok {ms : Mid} {cur rev : Fc2} {sg : Bool}
+    (h : validateRevision2Core ms cur rev sg = .ok ()) :
+    rev.val = cur.val ∧ (ms.base.child ≥ ms.base.P.ephemeralFix → rev.missedHost ≤ rev.host.value) := by
+  unfold validateRevision2Core at h
+  rw [bind_eq_ok] at h; obtain ⟨curSum, hcs, h⟩ := h
+  rw [bind_eq_ok] at h; obtain ⟨revSum, hrs, h⟩ := h
+  rw [addC_ok] at hcs hrs
+  by_cases c1 : rev.capacity < cur.capacity
+  · rw [if_pos c1] at h; cases h
+  rw [if_neg c1] at h
+  by_cases c2 : rev.filesize > rev.capacity
+  · rw [if_pos c2] at h; cases h
+  rw [if_neg c2] at h
+  by_cases c3 : cur.proofHeight < ms.base.child
+  · rw [if_pos c3] at h; cases h
+  rw [if_neg c3] at h
+  by_cases c4 : rev.revNum ≤ cur.revNum
+  · rw [if_pos c4] at h; cases h
+  rw [if_neg c4] at h
+  by_cases h5 : revSum ≠ curSum
+  · rw [if_pos h5] at h; cases h
+  rw [if_neg h5] at h
+  by_cases c6 : rev.missedHost > cur.missedHost
+  · rw [if_pos c6] at h; cases h
+  rw [if_neg c6] at h
+  by_cases h7 : ms.base.child ≥ ms.base.P.ephemeralFix ∧ rev.missedHost > rev.host.value
+  · rw [if_pos h7] at h; cases h
+  clear h
+  constructor
+  · have : revSum = curSum := by simpa using h5
+    unfold Fc2.val; rw [← hrs.2, this, hcs.2]
+  · intro hfix
+    have : ¬ rev.missedHost > rev.host.value := fun hh => h7 ⟨hfix, hh⟩
+    exact Nat.le_of_not_lt this
 end Sia.Ledger
